@@ -125,7 +125,7 @@ pub struct GenCfg {
 
 impl GenCfg {
     /// Swarm-style: every knob is drawn per world.
-    pub fn swarm(rng: &mut Rng) -> GenCfg {
+    pub fn swarm(rng: &Rng) -> GenCfg {
         let mut w = [6, 8, 4, 4, 3, 2, 2, 3, 3, 3, 1, 1];
         // disable a random subset of statement kinds (never text/print)
         for wi in w.iter_mut().skip(2) {
@@ -156,7 +156,7 @@ impl GenCfg {
             inheritance: rng.pick(&[0, 200, 500]),
             components: rng.pick(&[0, 300, 600]),
             unicode_text: rng.chance(1, 2),
-            cost_budget: rng.pick(&[200, 600, 2000]),
+            cost_budget: rng.pick(&[300, 1000, 4000]),
         }
     }
 }
@@ -221,7 +221,7 @@ struct Env {
 }
 
 pub struct Gen<'a> {
-    pub rng: &'a mut Rng,
+    pub rng: &'a Rng,
     pub cfg: GenCfg,
     pub world: World,
     // per-template accumulation while generating
@@ -249,7 +249,7 @@ fn escape_str_lit(s: &str) -> String {
 }
 
 impl<'a> Gen<'a> {
-    pub fn new(rng: &'a mut Rng, cfg: GenCfg) -> Gen<'a> {
+    pub fn new(rng: &'a Rng, cfg: GenCfg) -> Gen<'a> {
         Gen {
             rng,
             cfg,
@@ -762,7 +762,13 @@ impl<'a> Gen<'a> {
     }
 
     fn stmt(&mut self, env: &Env) -> String {
+        // every statement costs one unit per enclosing iteration
+        self.cur_cost = self.cur_cost.saturating_add(env.mult);
         let mut w = self.cfg.w;
+        if self.cur_cost > self.cfg.cost_budget.saturating_mul(4) {
+            // own work of a template stays bounded: only cheap statements from here on
+            return if self.rng.chance(1, 2) { self.text() } else { self.print_stmt(env) };
+        }
         if env.depth >= self.cfg.max_depth {
             for i in [2, 3, 5, 6, 8, 9] {
                 w[i] = 0;
@@ -878,6 +884,9 @@ impl<'a> Gen<'a> {
                 (format!("for {} in {}", v, self.expr(env, Kind::Any, 0)), 40)
             }
         };
+        if env.mult.saturating_mul(bound) > 2000 {
+            return self.text();
+        }
         inner.mult = env.mult.saturating_mul(bound);
         let mut s = self.tag(&head);
         s.push_str(&self.body(&inner));
@@ -1003,8 +1012,13 @@ impl<'a> Gen<'a> {
     fn block_stmt(&mut self, env: &Env) -> String {
         self.block_counter += 1;
         let mut name = self.rng.pick(BLOCK_NAMES).to_string();
-        if self.cur_blocks.contains(&name) {
-            name = format!("nb{}", self.block_counter);
+        let is_child = self.world.info.get(env.tpl).map(|t| t.extends.is_some()).unwrap_or(false);
+        // Inside a child's override only brand-new names are nested: reusing a name an ancestor
+        // defines can build a block-nesting cycle through super() whose render overflows the
+        // stack (finding F4) — that shape is explored by the inherit family in a sacrificial
+        // process, never here.
+        if is_child || self.cur_blocks.contains(&name) {
+            name = format!("nb{}_{}", env.tpl, self.block_counter);
             if self.cur_blocks.contains(&name) {
                 return self.text();
             }
@@ -1375,7 +1389,12 @@ impl<'a> Gen<'a> {
         // keep the old extends decision
         let keep_inh = self.cfg.inheritance;
         self.cfg.inheritance = 0;
+        // templates that include `i` inside loops were budgeted against its old cost: the new
+        // body must not be more expensive
+        let keep_budget = self.cfg.cost_budget;
+        self.cfg.cost_budget = old.cost.max(1);
         self.gen_template_named(i, name.clone());
+        self.cfg.cost_budget = keep_budget;
         self.cfg.inheritance = keep_inh;
         self.cfg.components = keep_comp_cfg;
         let (_, mut src) = self.world.templates.pop().unwrap();
